@@ -46,11 +46,30 @@ WriteClauses(e) ==
                       /\ Abs(f.sample_start - e.set.sample_start) <= 1 /\ Abs(f.sample_length - e.set.sample_length) <= 1
                  ELSE \A i \in 1..n : per(i)[k] ]
 
+(* second generation against the first when the tempo list had changes off the measure lines: the reader
+   reseats them, after which the objects are no longer on the snap grid of the (nudged) tempo, so each
+   write may move them by up to 1/96 beat of the slowest tempo involved *)
+MaxBl(ch) == LET S == { ch.bpms[i].bl : i \in DOMAIN ch.bpms } IN CHOOSE x \in S : \A y \in S : y <= x
+ListNear(a, b, tol, long) ==
+    /\ Len(a) = Len(b)
+    /\ \A i \in DOMAIN a : \E j \in DOMAIN b : a[i].c = b[j].c /\ Abs(a[i].t - b[j].t) <= tol
+                                                 /\ (long => Abs(a[i].t + a[i].n - b[j].t - b[j].n) <= tol)
+AgainNear(x, y) ==
+    /\ Len(x) = Len(y)
+    /\ \A i \in DOMAIN x :
+         LET tol == Max2(MaxBl(x[i]), MaxBl(y[i])) \div 48 + 8 IN
+         /\ ListNear(x[i].hits, y[i].hits, tol, FALSE) /\ ListNear(x[i].mines, y[i].mines, tol, FALSE)
+         /\ ListNear(x[i].lifts, y[i].lifts, tol, FALSE) /\ ListNear(x[i].fakes, y[i].fakes, tol, FALSE)
+         /\ ListNear(x[i].keysounds, y[i].keysounds, tol, FALSE)
+         /\ ListNear(x[i].holds, y[i].holds, tol, TRUE) /\ ListNear(x[i].rolls, y[i].rolls, tol, TRUE)
+         /\ x[i].type = y[i].type /\ x[i].diff = y[i].diff /\ x[i].meter = y[i].meter
+
 Clauses(e) ==
     IF e.exc # "" THEN [ no_exc |-> FALSE ]
     ELSE CASE e.op = "read" -> ReadClauses(e)
            [] e.op = "write" -> WriteClauses(e)
-           [] e.op = "reread" -> [ same_again |-> e.second = e.first, header_kept |-> e.set_back = e.set ]
+           [] e.op = "reread" -> [ same_again |-> IF e.on_lines THEN e.second = e.first ELSE AgainNear(e.first, e.second),
+                                   header_kept |-> e.set_back = e.set ]
 
 Failing(e) == LET c == Clauses(e) IN { k \in DOMAIN c : ~c[k] }
 Init == l = 1 /\ nbad = 0
